@@ -61,6 +61,8 @@ unsafe impl Sync for GcNodeData {}
 #[derive(Clone)]
 pub struct GcCtx {
     data: Arc<Mutex<GcCtxData>>,
+    #[cfg(sodiumfrp_sodium_rust_verif)]
+    verif: Arc<VerifGcCounters>,
 }
 
 struct GcCtxData {
@@ -83,6 +85,8 @@ impl GcCtx {
                 roots: Vec::new(),
                 to_be_freed: Vec::new(),
             })),
+            #[cfg(sodiumfrp_sodium_rust_verif)]
+            verif: Arc::new(VerifGcCounters::default()),
         }
     }
 
@@ -439,7 +443,101 @@ impl GcNode {
     }
 
     pub fn trace<TRACER: FnMut(&GcNode)>(&self, mut tracer: TRACER) {
+        #[cfg(sodiumfrp_sodium_rust_verif)]
+        let mut tracer = {
+            let counters = self.gc_ctx.verif.clone();
+            counters.trace_calls.fetch_add(1, Ordering::SeqCst);
+            move |n: &GcNode| {
+                counters.trace_edges.fetch_add(1, Ordering::SeqCst);
+                tracer(n)
+            }
+        };
         let trace = self.data.trace.read();
         trace(&mut tracer);
+    }
+}
+
+// ---- verification hooks (read-only accessors and counters; compiled only with the guard) ----
+
+#[cfg(sodiumfrp_sodium_rust_verif)]
+#[derive(Default)]
+pub struct VerifGcCounters {
+    pub trace_calls: std::sync::atomic::AtomicU64,
+    pub trace_edges: std::sync::atomic::AtomicU64,
+}
+
+#[cfg(sodiumfrp_sodium_rust_verif)]
+#[derive(Clone, Debug, PartialEq, Eq)]
+pub struct GcNodeSnapshot {
+    pub id: u32,
+    pub freed: bool,
+    pub ref_count: u32,
+    pub ref_count_adj: u32,
+    pub visited: bool,
+    /// 0 = Black, 1 = Gray, 2 = Purple, 3 = White
+    pub color: u8,
+    pub buffered: bool,
+}
+
+#[cfg(sodiumfrp_sodium_rust_verif)]
+impl GcNode {
+    pub fn verif_id(&self) -> u32 {
+        self.id
+    }
+
+    pub fn verif_name(&self) -> NodeName {
+        self.name
+    }
+
+    pub fn verif_snapshot(&self) -> GcNodeSnapshot {
+        GcNodeSnapshot {
+            id: self.id,
+            freed: self.data.freed.load(Ordering::SeqCst),
+            ref_count: self.data.ref_count.load(Ordering::SeqCst),
+            ref_count_adj: self.data.ref_count_adj.load(Ordering::SeqCst),
+            visited: self.data.visited.load(Ordering::SeqCst),
+            color: match self.data.color.get() {
+                Color::Black => 0,
+                Color::Gray => 1,
+                Color::Purple => 2,
+                Color::White => 3,
+            },
+            buffered: self.data.buffered.load(Ordering::SeqCst),
+        }
+    }
+
+    /// The ids this node's tracer reports, in order, without touching the counters.
+    pub fn verif_edges(&self) -> Vec<GcNode> {
+        let mut out = Vec::new();
+        let trace = self.data.trace.read();
+        trace(&mut |n: &GcNode| out.push(n.clone()));
+        out
+    }
+}
+
+#[cfg(sodiumfrp_sodium_rust_verif)]
+impl GcCtx {
+    pub fn verif_roots(&self) -> Vec<u32> {
+        self.with_data(|data: &mut GcCtxData| data.roots.iter().map(|n| n.id).collect())
+    }
+
+    pub fn verif_root_nodes(&self) -> Vec<GcNode> {
+        self.with_data(|data: &mut GcCtxData| data.roots.clone())
+    }
+
+    pub fn verif_to_be_freed(&self) -> Vec<u32> {
+        self.with_data(|data: &mut GcCtxData| data.to_be_freed.iter().map(|n| n.id).collect())
+    }
+
+    pub fn verif_next_id(&self) -> u32 {
+        self.with_data(|data: &mut GcCtxData| data.next_id)
+    }
+
+    pub fn verif_trace_calls(&self) -> u64 {
+        self.verif.trace_calls.load(Ordering::SeqCst)
+    }
+
+    pub fn verif_trace_edges(&self) -> u64 {
+        self.verif.trace_edges.load(Ordering::SeqCst)
     }
 }
